@@ -96,6 +96,7 @@ impl Prop for C16 {
             "device wired as in scpi-contrib/examples/minimal_scpi.rs; MAV is passed in Context.mav by the transport stub (previous response of the same controller unread)".into(),
             "register-set 'summary' is accepted under either reading (enabled condition bits, as the crate documents, or enabled event bits, as SCPI-99 draws it) but the same reading throughout a run".into(),
             "STB bits 0 and 1 are device-designer bits: ignored".into(),
+            "one run in six uses a plain IEEE 488.2 wiring (stb() = the trait default, no SCPI status structures reported): there only bits 4, 5 and 6 are compared".into(),
             "*ESE/*SRE values are NR1 or non-decimal literals (NR2/NR3 spellings and MIN/MAX keywords are value-level conversions, C07, n/a)".into(),
         ]
     }
@@ -119,6 +120,8 @@ impl Prop for C16 {
             "selftest_failing",
             "ese_out_of_range",
             "stb_with_mav_other_controller_unread",
+            "plain_488_device_stb",
+            "plain_488_mss_from_esb_only",
         ];
         v.into_iter().map(String::from).collect()
     }
@@ -132,6 +135,8 @@ impl Prop for C16 {
             queue: queue_cfg(&mut rng),
             controllers,
             tree,
+            // one run in six: a plain IEEE 488.2 device that keeps the trait's default stb()
+            plain488: rng.chance(1, 6),
         };
         let mut t = base_trace("C16", seed, run, "history", cfg.clone());
         let tc = TreeCtx::new(&cfg.tree);
@@ -160,9 +165,10 @@ impl Prop for C16 {
             let msg = match g.rng.weighted(&w) {
                 0 => {
                     let reg = *g.rng.pick(&[Reg::Oper, Reg::Ques]);
-                    let value = gen_condition(g.rng, shadow.reg_ref(reg).cond);
-                    shadow.reg(reg).set_condition(value);
-                    t.steps.push(Step::Hw(HwOp { reg, value }));
+                    let op = crate::props::c15::gen_hw(g.rng, reg, shadow.reg_ref(reg).cond);
+                    let target = op.target(shadow.reg_ref(reg).cond);
+                    shadow.reg(reg).set_condition(target);
+                    t.steps.push(Step::Hw(op));
                     continue;
                 }
                 1 => {
@@ -376,6 +382,14 @@ impl StepHandler for H16 {
                         let now = pred.state.esr & pred.state.ese != 0;
                         if was != now {
                             stats.probe("esb_toggled_by_ese_write");
+                        }
+                    }
+                }
+                Contrib::Stb if *ui == 0 && before.plain488 => {
+                    stats.probe("plain_488_device_stb");
+                    if let Some(v) = before.stb(mav, Reading::Condition) {
+                        if v & 0x60 == 0x60 && !mav {
+                            stats.probe("plain_488_mss_from_esb_only");
                         }
                     }
                 }
